@@ -228,17 +228,49 @@ def _sum(interp, it, start=0):
     return r
 
 
+def _loops():
+    from . import loops
+    return loops
+
+
 @bi("range")
 def _range(*a):
     a = [X._unfrac(x) for x in a]
     if any(is_sym(x) for x in a):
-        raise Unsupported("range() over a symbolic bound (needs a loop invariant)")
+        if len(a) == 1:
+            start, stop, step = 0, a[0], 1
+        elif len(a) == 2:
+            start, stop, step = a[0], a[1], 1
+        else:
+            start, stop, step = a
+        if not (isinstance(step, int) and step == 1):
+            raise Unsupported("symbolic range with a step")
+        n = V.smax(V.arith("-", stop, start), 0)
+        return _loops().SList(n, lambda i: V.arith("+", start, i))
     return range(*a)
 
 
 @bi("zip")
 @wants_interp
 def _zip(interp, *its, strict=False):
+    L = _loops()
+    sis = [L.siter(i) for i in its]
+    if any(s_ is not None for s_ in sis):
+        gets, ns = [], []
+        for it, s_ in zip(its, sis):
+            if s_ is not None:
+                ns.append(s_[0])
+                gets.append(s_[1])
+            else:
+                seq = list(interp.iterate(it))
+                ns.append(len(seq))
+                gets.append((lambda seq: lambda i: L._seq_get(seq, i))(seq))
+        n = ns[0]
+        for m in ns[1:]:
+            same = (is_sym(n) and is_sym(m) and n.t.eq(m.t)) or (not is_sym(n) and not is_sym(m) and n == m)
+            if not same:
+                n = V.smin(n, m)
+        return L.SList(n, lambda i: tuple(g(i) for g in gets))
     ls = [list(interp.iterate(i)) for i in its]
     return list(zip(*ls))
 
@@ -246,6 +278,11 @@ def _zip(interp, *its, strict=False):
 @bi("enumerate")
 @wants_interp
 def _enumerate(interp, it, start=0):
+    L = _loops()
+    s_ = L.siter(it)
+    if s_ is not None:
+        n, get = s_
+        return L.SList(n, lambda i: (V.arith("+", i, start), get(i)))
     return list(enumerate(list(interp.iterate(it)), start))
 
 
@@ -269,12 +306,18 @@ def _sorted(interp, it, key=None, reverse=False):
 @bi("list")
 @wants_interp
 def _list(interp, it=()):
+    s_ = _loops().siter(it)
+    if s_ is not None:
+        return _loops().SList(s_[0], s_[1])
     return list(interp.iterate(it))
 
 
 @bi("tuple")
 @wants_interp
 def _tuple(interp, it=()):
+    s_ = _loops().siter(it)
+    if s_ is not None:
+        return _loops().SList(s_[0], s_[1])
     return tuple(interp.iterate(it))
 
 
@@ -1298,6 +1341,13 @@ def _getattr_hook(interp, obj, name):
             return lambda: V.compare("==", V.to_real(V.floor_(obj)) if is_sym(obj) else math.floor(obj), obj)
         return NotImplemented
     if isinstance(obj, list):
+        if name == "append" and interp.loop_stack and id(obj) in interp.loop_stack[-1].outer_lists:
+            fr = interp.loop_stack[-1]
+
+            def _append(v):
+                fr.appends.setdefault(id(obj), (obj, []))[1].append(v)
+                fr.written.add(id(obj))
+            return _append
         if name == "append":
             return obj.append
         if name == "extend":
@@ -1406,8 +1456,9 @@ REG["abc.ABC"] = TypeTag("ABC", lambda x: False)
 
 # scipy.fft: shapes are exact, values are uninterpreted (fresh function per call) ------------------------------
 def _uf_array(prefix, shape, kind="real"):
-    f = z3.Function(V.fresh_name(prefix), *([I] * len(shape)), R)
-    return SArr(tuple(shape), lambda idx: Sym(f(*[V.lift(i) for i in idx])), kind)
+    la = V.loop_args()
+    f = z3.Function(V.fresh_name(prefix), *([I] * (len(la) + len(shape))), R)
+    return SArr(tuple(shape), lambda idx: Sym(f(*(la + [V.lift(i) for i in idx]))), kind)
 
 
 def _fft_shape(x, s):
